@@ -49,7 +49,10 @@ fn fam_idx(f: Family) -> Option<usize> {
 struct Env {
     /// base attribute sets, shared as the same Arc on purpose
     attrs: Vec<Arc<Vec<Attribute>>>,
-    nhs: [Nexthop; 2],
+    /// next-hop pool: nh_a (V4), then three IPv6 next hops that share ONE global address:
+    /// nh_b plain V6(G), nh_c V6LinkLocal(G, fe80::1), nh_d V6LinkLocal(G, fe80::2).
+    /// nh_c / nh_d are used in the IPv6 family only (32-byte MP_REACH next hop).
+    nhs: [Nexthop; 4],
     pfx: [Vec<Nlri>; 2],
     pfx_index: [HashMap<Nlri, Px>; 2],
     addrs: [IpAddr; NPEER],
@@ -105,6 +108,8 @@ impl Env {
             nhs: [
                 Nexthop::V4(Ipv4Addr::new(192, 0, 2, 1)),
                 Nexthop::V6(Ipv6Addr::new(0x2001, 0xdb8, 0xffff, 0, 0, 0, 0, 2)),
+                Nexthop::V6LinkLocal(Ipv6Addr::new(0x2001, 0xdb8, 0xffff, 0, 0, 0, 0, 2), Ipv6Addr::new(0xfe80, 0, 0, 0, 0, 0, 0, 1)),
+                Nexthop::V6LinkLocal(Ipv6Addr::new(0x2001, 0xdb8, 0xffff, 0, 0, 0, 0, 2), Ipv6Addr::new(0xfe80, 0, 0, 0, 0, 0, 0, 2)),
             ],
             pfx: [p4, p6],
             pfx_index,
@@ -139,12 +144,26 @@ impl Env {
         match n {
             None => "nh-".into(),
             Some(n) => match self.nhs.iter().position(|x| x == n) {
-                Some(0) => "nh_a".into(),
-                Some(_) => "nh_b".into(),
+                Some(i) => nh_label(i as u8).into(),
                 None => "nh?".into(),
             },
         }
     }
+}
+
+fn nh_label(i: u8) -> &'static str {
+    match i {
+        0 => "nh_a",
+        1 => "nh_b[G]",
+        2 => "nh_c[G+ll1]",
+        3 => "nh_d[G+ll2]",
+        _ => "nh?",
+    }
+}
+
+/// which next hops a family may use: the global + link-local ones are IPv6-family only
+fn nh_ok(fam: u8, nh: u8) -> bool {
+    nh < 2 || (fam == 1 && nh < 4)
 }
 
 // ------------------------------------------------------------------ operations (protocol events)
@@ -241,26 +260,26 @@ impl Op {
             Op::Up { peer, gr, llgr } => format!("session-up peer{} (new Source Arcs) GR={} LLGR={}", peer, fams(gr), fams(llgr)),
             Op::Down { peer, graceful } => format!("session-down peer{} ({})", peer, if graceful { "GR/LLGR apply" } else { "hard: GR/LLGR do not apply" }),
             Op::Insert { peer, fam, pfx, pid, attr, fresh, nh, filtered } => format!(
-                "update peer{} {} P{} path-id {} attr A{}{} nh_{}{}",
+                "update peer{} {} P{} path-id {} attr A{}{} {}{}",
                 peer,
                 FAM_NAME[fam as usize & 1],
                 pfx,
                 pid,
                 attr,
                 if fresh { "' (equal content, new Arc)" } else { " (shared Arc)" },
-                if nh == 0 { "a" } else { "b" },
+                nh_label(nh),
                 if filtered { " FILTERED by import policy" } else { "" }
             ),
             Op::Remove { peer, fam, pfx, pid } => format!("withdraw peer{} {} P{} path-id {}", peer, FAM_NAME[fam as usize & 1], pfx, pid),
             Op::BlockInsert { peer, fam, lo, n, attr, nh, filtered } => format!(
-                "update peer{} {} P{}..P{} ({} prefixes, one call each) path-id 0 attr A{} (shared Arc) nh_{}{}",
+                "update peer{} {} P{}..P{} ({} prefixes, one call each) path-id 0 attr A{} (shared Arc) {}{}",
                 peer,
                 FAM_NAME[fam as usize & 1],
                 lo,
                 lo + n.max(1) - 1,
                 n,
                 attr,
-                if nh == 0 { "a" } else { "b" },
+                nh_label(nh),
                 if filtered { " FILTERED by import policy" } else { "" }
             ),
             Op::BlockRemove { peer, fam, lo, n } => format!("withdraw peer{} {} P{}..P{} path-id 0", peer, FAM_NAME[fam as usize & 1], lo, lo + n.max(1) - 1),
@@ -278,7 +297,7 @@ impl Op {
             Op::GrTimer { peer } => format!("GR restart timer of peer{} expires", peer),
             Op::LlgrTimer { peer, fam } => format!("LLGR stale timer of peer{} {} expires", peer, FAM_NAME[fam as usize & 1]),
             Op::Eor { peer, fam } => format!("End-of-RIB from peer{} {}", peer, FAM_NAME[fam as usize & 1]),
-            Op::NhFlip { nh, reachable } => format!("next hop nh_{} becomes {}", if nh == 0 { "a" } else { "b" }, if reachable { "reachable" } else { "UNREACHABLE" }),
+            Op::NhFlip { nh, reachable } => format!("next-hop address of {} becomes {}", nh_label(nh), if reachable { "reachable" } else { "UNREACHABLE" }),
             Op::StartDeferral { fam } => format!("start selection deferral {}", FAM_NAME[fam as usize & 1]),
             Op::EndDeferral { fam } => format!("end selection deferral {}", FAM_NAME[fam as usize & 1]),
         }
@@ -1090,6 +1109,29 @@ impl<'a> Run<'a> {
         let net = env.pfx[fi][px as usize].clone();
         let existing = self.shadow[fi].get(&px).and_then(|v| v.iter().position(|s| s.peer == peer && s.rpid == rpid));
         let replaces_other_session = existing.is_some_and(|i| !Arc::ptr_eq(&self.shadow[fi][&px][i].src, &src));
+        // a replacement by the same session that keeps the attribute content and the global
+        // next-hop address and changes only the link-local half / the variant (V6 <-> V6LinkLocal)
+        let mut nh_only: Vec<String> = Vec::new();
+        if let Some(i) = existing {
+            let old = &self.shadow[fi][&px][i];
+            let old_nh = env.nhs[old.nh as usize];
+            if Arc::ptr_eq(&old.src, &src) && !old.filtered && !filtered && same_attr(&old.attr, &attr) && old_nh != nh && old_nh.addr() == nh.addr() {
+                let what = match (old_nh, nh) {
+                    (Nexthop::V6LinkLocal(..), Nexthop::V6LinkLocal(..)) => "replace:nexthop-link-local-only",
+                    _ => "replace:nexthop-variant-only",
+                };
+                let arc = if Arc::ptr_eq(&old.attr, &attr) { "same-arc" } else { "equal-content-new-arc" };
+                nh_only.push(what.to_string());
+                nh_only.push(format!("{}:{}", what, arc));
+                // was the replaced path the best path the consumers were last told about?
+                let was_best = self.gt_prev[fi].get(&px).and_then(|d| d.paths.first()).is_some_and(|b| {
+                    b.src == Arc::as_ptr(&src) as usize && b.nh == Some(old_nh) && same_attr(&b.attr, &old.attr)
+                });
+                if was_best && !self.deferring[fi] {
+                    nh_only.push(format!("{}:{}:of-best-path", what, arc));
+                }
+            }
+        }
         let deferring = self.deferring[fi];
         let t = &mut self.t;
         let a2 = attr.clone();
@@ -1135,6 +1177,12 @@ impl<'a> Run<'a> {
                     }
                     if replaces_other_session {
                         self.cnt("insert:new-session-replaces-path-of-old-session");
+                    }
+                    for k in &nh_only {
+                        self.cnt(k);
+                    }
+                    if matches!(nh, Nexthop::V6LinkLocal(..)) {
+                        self.cnt("insert:nexthop-global+link-local");
                     }
                     if changes.is_empty() && !deferring {
                         self.cnt("insert:nochange");
@@ -1494,7 +1542,7 @@ impl<'a> Run<'a> {
                     && (pfx as usize) < self.npfx[fam as usize]
                     && pid < 3
                     && (attr as usize) < self.env.attrs.len()
-                    && nh < 2
+                    && nh_ok(fam, nh)
                     && self.peers[peer as usize].sess.is_some()
             }
             Op::Remove { peer, fam, pfx, pid } => pv(peer) && fv(fam) && (pfx as usize) < self.npfx[fam as usize] && pid < 3 && self.peers[peer as usize].sess.is_some(),
@@ -1504,7 +1552,7 @@ impl<'a> Run<'a> {
                     && n >= 1
                     && (lo as usize + n as usize) <= self.npfx[fam as usize]
                     && (attr as usize) < self.env.attrs.len()
-                    && nh < 2
+                    && nh_ok(fam, nh)
                     && self.peers[peer as usize].sess.is_some()
             }
             Op::BlockRemove { peer, fam, lo, n } => {
@@ -1548,7 +1596,7 @@ impl<'a> Run<'a> {
         let lo = if rng.bool() { (rng.below(np / 32 + 1) * 32).min(np - n) } else { rng.below(np - n + 1) };
         let k = rng.below(100);
         if k < 45 {
-            Op::BlockInsert { peer, fam, lo: lo as Px, n: n as Px, attr: *rng.pick(&[0u8, 1, 1, 2]), nh: rng.below(2) as u8, filtered: rng.chance(1, 12) }
+            Op::BlockInsert { peer, fam, lo: lo as Px, n: n as Px, attr: *rng.pick(&[0u8, 1, 1, 2]), nh: rng.below(if fam == 1 { 4 } else { 2 }) as u8, filtered: rng.chance(1, 12) }
         } else if k < 60 {
             Op::BlockRemove { peer, fam, lo: lo as Px, n: n as Px }
         } else {
@@ -1605,18 +1653,37 @@ impl<'a> Run<'a> {
             let span = if self.npfx[fam as usize] > 6 && rng.bool() { 6 } else { self.npfx[fam as usize] };
             let mut pfx = rng.below(span as u64) as Px;
             let mut pid = *rng.pick(&[0u8, 0, 0, 1, 1, 2]);
+            let mut attr = *rng.pick(&[0u8, 0, 1, 1, 1, 2, 2, 3, 3, 4]);
+            // IPv6 family: half of the next hops come from the group sharing one global address
+            let mut nh = if fam == 1 { *rng.pick(&[0u8, 1, 2, 3, 2, 3]) } else { rng.below(2) as u8 };
+            let mut filtered = rng.chance(1, 5);
             if rng.chance(1, 3) {
                 // re-announce a key this peer already has (possibly written by its previous session)
-                let keys: Vec<(Px, u8)> = self.shadow[fam as usize]
+                let keys: Vec<(Px, u8, u8, Option<u8>)> = self.shadow[fam as usize]
                     .iter()
-                    .flat_map(|(px, v)| v.iter().filter(|s| s.peer == peer).map(move |s| (*px, s.rpid)))
+                    .flat_map(|(px, v)| {
+                        v.iter().filter(|s| s.peer == peer).map(move |s| {
+                            let ai = self.env.attrs.iter().position(|a| same_attr(a, &s.attr)).map(|i| i as u8);
+                            (*px, s.rpid, s.nh, ai)
+                        })
+                    })
                     .collect();
                 if !keys.is_empty() {
-                    (pfx, pid) = *rng.pick(&keys);
+                    let (p2, r2, old_nh, old_attr) = *rng.pick(&keys);
+                    (pfx, pid) = (p2, r2);
+                    if fam == 1 && rng.bool() {
+                        // next-hop-only re-advertisement: same attribute set (same shared Arc unless `fresh`),
+                        // another member of the same-global-address group (link-local half / variant changes)
+                        if let Some(ai) = old_attr {
+                            attr = ai;
+                        }
+                        let group: Vec<u8> = [1u8, 2, 3].into_iter().filter(|x| *x != old_nh).collect();
+                        nh = *rng.pick(&group);
+                        filtered = false;
+                    }
                 }
             }
-            let attr = *rng.pick(&[0u8, 0, 1, 1, 1, 2, 2, 3, 3, 4]);
-            Op::Insert { peer, fam, pfx, pid, attr, fresh: rng.chance(1, 4), nh: rng.below(2) as u8, filtered: rng.chance(1, 5) }
+            Op::Insert { peer, fam, pfx, pid, attr, fresh: rng.chance(1, 4), nh, filtered }
         } else if k < 62 {
             // withdraw something that exists, if anything
             let keys: Vec<(Px, u8)> = self.shadow[fam as usize]
